@@ -495,7 +495,7 @@ async def _main(ctx):
             [conf("Flat", 2, False, 5), conf("Flat", 1, False, 6, relate_all=True), conf("Chain", 2, False, 4),
              conf("Fork", 2, False, 4), conf("T2", 3, True, 3, types=both),
              conf("T3", 3, True, 2, types=both), conf("T3", 3, True, 2, types=both, wrap2=True),
-             conf("T2", 3, False, 6, family="three")])
+             conf("Fork", 3, False, 6, family="three")])
         for c in edge:
             _edge_config(ctx, sf, c, ctx.pick(7, 3))
         for c in ctx.pick([], [conf("Chain", 2, False, 5), conf("Flat", 1, False, 7, relate_all=True)]):
@@ -506,9 +506,9 @@ async def _main(ctx):
                     "the exhaustive configurations hardly reach relations that share an end (vacuous closure clause)")
         # quick: the stack of depth two (it contains the simple wrapping: /a/b/x on L3 has one inner copy, /a/a/x two)
         big = conf("T3", 3, True, 99, types=both, wrap2=ctx.quick)
-        _trace_config(ctx, sf, big, ctx.pick(250, 4000), ctx.pick(7, 9), "wrap2" if ctx.quick else "wrap")
+        _trace_config(ctx, sf, big, ctx.pick(250, 2800), ctx.pick(7, 9), "wrap2" if ctx.quick else "wrap")
         if not ctx.quick:
-            _trace_config(ctx, sf, conf("T3", 3, True, 99, types=both, wrap2=True), 1500, 9, "wrap2")
+            _trace_config(ctx, sf, conf("T3", 3, True, 99, types=both, wrap2=True), 1200, 9, "wrap2")
             _trace_config(ctx, sf, dict(conf("T3", 3, False, 99, types=("PRIMARY", "SYMLINK")), same_dep=True),
                           2000, 9, "same-deployment")
     finally:
